@@ -653,9 +653,7 @@ theorem mergeDuplicateEdges_inv {s : HG} (h : Inv s) (rename : Rename) (rule : M
 
 theorem lccInPlace_inv {s : HG} (h : Inv s) : Inv (lccInPlace s).1 := by
   unfold lccInPlace
-  split
-  · exact h
-  · exact guardF_inv Inv _ _ h (removeNodesFrom_inv h _ _ _)
+  exact guardF_inv Inv _ _ h (removeNodesFrom_inv h _ _ _)
 
 theorem relabel_inv {s : HG} (h : Inv s) (l : String) : Inv (relabel s l).1 := by
   unfold relabel
